@@ -258,8 +258,6 @@ def exercise(ctx, prs, label, rng, budget, none_first=False):
             v, cls = p.bad(rng), "bad"
         else:
             v, cls = p.gen(rng), "in"
-        if type(obj).__name__ == "Connector" and isinstance(v, int) and not isinstance(v, bool) and abs(v) > 2**40:
-            v = type(v)(v % 2**31) if cls == "in" else v   # begin/end points are sums of offset and extent: keep the sums inside the type
         obs_skip = OBSERVE_COUPLED.get((p.kind, p.name), set())
         obs_before = observe(prs, path, p.kind, obs_skip)
         before_self = reading(obj, p.name)
